@@ -88,8 +88,8 @@ Var Xdl::read(const String& file)
 		return Var();
 	Array<char> buffer(min(16382, size) + 1);
 	byte bom[3];
-	if(tfile.read(bom, 3) == 3 && !(bom[0] == 0xef && bom[1] == 0xbb && bom[2] == 0xbf))
-		tfile.seek(0);
+	if(!(tfile.read(bom, 3) == 3 && bom[0] == 0xef && bom[1] == 0xbb && bom[2] == 0xbf))
+		tfile.seek(0); // no BOM (or a file shorter than one): start over
 	while (1)
 	{
 		int n = tfile.read(buffer.data(), buffer.length() - 1);
